@@ -103,6 +103,12 @@ def _frac_of_float(x: float):
     if cand != 0 and abs(cand - ex_ipi) <= abs(ex_ipi) * Fraction(1, 2**48):
         FLOAT_LOG[repr(x)] = f"{cand}/pi"
         return cand, "inv"
+    if x > 0:
+        ex_sq = Fraction(x * x / math.pi)
+        cand = ex_sq.limit_denominator(64)
+        if cand != 0 and abs(cand - ex_sq) <= abs(ex_sq) * Fraction(1, 2**46):
+            FLOAT_LOG[repr(x)] = f"sqrt({cand}*pi)"
+            return cand, "sqrtpi"
     FLOAT_LOG[repr(x)] = f"exact {ex}"
     return ex, False
 
@@ -173,6 +179,8 @@ class Sym:
             s = Sym.const(fr)
             if times_pi == "inv":
                 return s * Sym.pi().inverse()
+            if times_pi == "sqrtpi":
+                return (s * Sym.pi()).sqrt()
             return s * Sym.pi() if times_pi else s
         if isinstance(x, numbers.Rational):
             return Sym.const(Fraction(x))
